@@ -112,6 +112,8 @@ class LC:
             s = z3.RealVal(0)
             for k, (a, c) in sorted(self.terms.items()):
                 s = s + c * ELEM(a, i)
+            if getattr(eng.dom, 'scalar_facts', False):
+                eng.dom.elem_facts(self, i, st)
             return s
         return UNK
 
@@ -129,6 +131,11 @@ class LC:
         return LC.fresh('havoc')
 
 
+DOMAIN_FACTS = []
+SHRINK = {}     # sexpr of a mask token -> (parent token, index fixed, value stored)
+ANC = {}        # sexpr of a mask token -> tokens of the masks it was derived from by fixing coordinates
+
+
 def strip(tok, a):
     """a0 if a == RAT(tok, a0) (same mask, syntactically), else None"""
     if z3.is_app(a) and a.decl().eq(RAT) and z3.eq(a.arg(0), tok):
@@ -140,9 +147,11 @@ def restrict(tok, lc, st=None):
     def r(a):
         if strip(tok, a) is not None:
             return a
+        if z3.is_app(a) and a.decl().eq(RAT) and any(z3.eq(a.arg(0), t) for t in ANC.get(tok.sexpr(), [])):
+            return RAT(tok, a.arg(1))          # the free set of tok is contained in that of its ancestor: masking twice is masking with the smaller set
         if st is not None and z3.is_app(a) and a.decl().eq(RAT):
             # masking is idempotent: ground instance for a mask token that may (path-dependently) be the same one
-            st.assume(z3.Implies(tok == a.arg(0), RAT(tok, a) == a))
+            DOMAIN_FACTS.append(z3.Implies(tok == a.arg(0), RAT(tok, a) == a))
         return RAT(tok, a)
     return lc.map_atoms(r)
 
@@ -182,11 +191,15 @@ class MaskSel:
         self.tok, self.kind = tok, kind
 
 
+FREE = z3.Function('FREE', MK, IS, z3.BoolSort())       # coordinate i is free (xbdi[i] == 0) under the mask
+
+
 class XB:
     """the integer array xbdi (-1 / 0 / +1 per coordinate), known only through a token"""
 
-    def __init__(self, tok=None):
+    def __init__(self, tok=None, anc=()):
         self.tok = tok if tok is not None else z3.Const(fresh_name('xbdi'), MK)
+        self.anc = tuple(anc)       # tokens of masks whose free set contains this one's (syntactic ancestry: one coordinate was fixed)
 
     def merge(self, c, o):
         if not isinstance(o, XB):
@@ -202,8 +215,18 @@ class XB:
         return fint('xbdi_i')
 
     def setitem(self, t, v, eng, st):
+        i = None
         if not isinstance(t.slice, (ast.Slice, ast.Tuple, ast.List)):
-            eng.ev(t.slice, st)
+            i = eng.ev(t.slice, st)
+        if isinstance(i, Opt):
+            i = i.val
+        dom = eng.dom
+        if getattr(dom, 'scalar_facts', False) and isint(i) and isz(v) and isint(v):
+            # xbdi[i] = v with v != 0: coordinate i leaves the free set, every other coordinate keeps its status (facts about the new mask, see LinCombDomain.shrink_facts)
+            new = XB(anc=(self.tok,) + self.anc)
+            dom.shrink_facts(self.tok, new.tok, i, v, st)
+            ANC[new.tok.sexpr()] = [self.tok] + ANC.get(self.tok.sexpr(), [])
+            return new
         return XB()
 
 
@@ -274,9 +297,9 @@ class LinCombDomain(RadiiDomain):
             'dot products are bilinear and symmetric by construction, DOT(a, a) >= 0 and Cauchy-Schwarz per pair of atoms are assumed (true of every semi-inner product)',
             'sqrt(a) is a real s >= 0 with s*s == a for a >= 0; element reads v[i] are linear in v (ELEM(a, i) per atom) and otherwise unconstrained']
         b = self.builtins
-        b['np.zeros'] = lambda eng, n, a, k, st: LC()
+        b['np.zeros'] = lambda eng, n, a, k, st: XB() if 'dtype' in k else LC()
         b['np.dot'] = self.b_dot
-        b['sumsq'] = lambda eng, n, a, k, st: self.dot(a[0], a[0], st) if a else UNK
+        b['sumsq'] = self.b_sumsq
         b['np.sum'] = self.b_sum
         b['sqrt'] = self.b_sqrt2
         b['np.sqrt'] = self.b_sqrt2
@@ -286,6 +309,14 @@ class LinCombDomain(RadiiDomain):
     def init_state(self, st, fi, con):
         RadiiDomain.init_state(self, st, fi, con)
         st.assume(N_ >= 1)
+        self.global_facts = DOMAIN_FACTS
+        del DOMAIN_FACTS[:]
+        SHRINK.clear()
+        ANC.clear()
+
+    def fact(self, st, f):
+        """a definitional fact about fresh symbols / uninterpreted functions: true on every path, so it is a global hypothesis of the obligations rather than part of a path condition"""
+        self.global_facts.append(f)
 
     def loop_havoc(self, eng, loop, h, entry, frame):
         """a mask array whose every assignment inside the loop is directly followed by `break` has, at every loop head, the value it had at loop entry"""
@@ -330,10 +361,21 @@ class LinCombDomain(RadiiDomain):
         s = freal('sqrt')
         if not self.scalar_facts:
             return s
-        st.assume(s >= 0)
+        self.fact(st, s >= 0)
         if isz(a) and isnum(a):
-            st.assume(z3.Implies(to_real(a) >= 0, s * s == to_real(a)))
+            self.fact(st, z3.Implies(to_real(a) >= 0, s * s == to_real(a)))
         return s
+
+    def shrink_facts(self, m, m2, i, v, st):
+        """mask m2 = mask m with coordinate i fixed (when v != 0).  Trusted fact about sums over index sets (A-lib), instantiated for every masked dot product that is
+           formed under m2 (dot_atoms): it is the one under m without the i-th term if i was free under m"""
+        SHRINK[m2.sexpr()] = (m, i, v)
+
+    def elem_facts(self, lc, i, st):
+        """ELEM(RAT(m, a), i) == (ELEM(a, i) if FREE(m, i) else 0) for the masked atoms of lc"""
+        for k, (a, c) in lc.terms.items():
+            if z3.is_app(a) and a.decl().eq(RAT):
+                self.fact(st, ELEM(a, i) == z3.If(FREE(a.arg(0), i), ELEM(a.arg(1), i), z3.RealVal(0)))
 
     # ------------------------------------------------------------------ dot products
     def dot_atoms(self, a, b, st):
@@ -348,8 +390,10 @@ class LinCombDomain(RadiiDomain):
             a0, b0 = b0, a0
         f = (lambda x, y: DOTR(m, x, y)) if m is not None else DOTF
         d = f(a0, b0)
-        if z3.eq(a0, b0):
-            st.assume(d >= 0)
+        if m is not None and m.sexpr() in SHRINK:
+            m0, i, v = SHRINK[m.sexpr()]
+            d0 = DOTR(m0, a0, b0)
+            self.fact(st, d == d0 - z3.If(z3.And(v != 0, FREE(m0, i)), ELEM(a0, i) * ELEM(b0, i), z3.RealVal(0)) + z3.If(z3.And(v == 0, z3.Not(FREE(m0, i))), ELEM(a0, i) * ELEM(b0, i), z3.RealVal(0)))
         return d
 
     def as_lc(self, v, st=None):
@@ -374,8 +418,22 @@ class LinCombDomain(RadiiDomain):
         s = z3.simplify(s)
         if u is v or (isinstance(u, LC) and isinstance(v, LC) and u.terms.keys() == v.terms.keys() and all(z3.eq(u.terms[k][1], v.terms[k][1]) for k in u.terms)) \
                 or (isinstance(u, MV) and u.same(v) and u.lc is v.lc):
-            st.assume(s >= 0)
+            self.fact(st, s >= 0)
         return s
+
+    def b_sumsq(self, eng, node, args, kw, st):
+        if not args:
+            return UNK
+        v = args[0]
+        if self.scalar_facts and not eng.in_spec and isinstance(v, LC) and len(v.terms) > 1 and len(node.args) == 1 and isinstance(node.args[0], ast.Name):
+            # abstraction: from here on the vector is ONE atom (its composition out of earlier vectors is forgotten); if every atom was masked by the same mask, so is the new one
+            toks = [a.arg(0) if (z3.is_app(a) and a.decl().eq(RAT)) else None for a, c in v.terms.values()]
+            new = z3.Const(fresh_name(node.args[0].id), AT)
+            if toks[0] is not None and all(t is not None and z3.eq(t, toks[0]) for t in toks):
+                new = RAT(toks[0], new)
+            v = LC.atom(new)
+            st.env[node.args[0].id] = v
+        return self.dot(v, v, st)
 
     def b_dot(self, eng, node, args, kw, st):
         if len(args) >= 2:
